@@ -644,9 +644,11 @@ pub fn check_history(hist: &Hist, rep: &mut Report) {
                     if w.ttl_ns == 0 {
                         rep.violate("C05", "cleanup/removed-unexpired", format!("value #{id:x} (key {key}) was written by {} without TTL and handed to on_evict at [{}] although the cache never ran short of room (total of the dearest entries {} <= max_cost {})", w.short(), e.seq, dearest.values().sum::<i64>(), hist.h.cfg.max_cost), json!({"history": d, "evicted_at_seq": e.seq, "writer": w.short()}));
                         rep.violate("C04", "cleanup/removed-unexpired", format!("value #{id:x} (key {key}) without TTL swept below capacity"), json!({"history": d, "evicted_at_seq": e.seq, "writer": w.short()}));
+                        rep.violate("C03", "cleanup/removed-unexpired", format!("value #{id:x} (key {key}) was written without TTL (by {}) and became invisible through the TTL cleanup", w.short()), json!({"history": d, "evicted_at_seq": e.seq, "writer": w.short()}));
                     } else if e.vnow < w.vcall.saturating_add(w.ttl_ns) && w.vcall != 0 {
                         rep.violate("C05", "cleanup/removed-unexpired", format!("value #{id:x} (key {key}) written by {} at virtual time >= {} with ttl {} ns was handed to on_evict at virtual time {} (seq {}), before its deadline, although the cache never ran short of room", w.short(), w.vcall, w.ttl_ns, e.vnow, e.seq), json!({"history": d, "evicted_at_seq": e.seq, "writer": w.short()}));
                         rep.violate("C04", "cleanup/removed-unexpired", format!("value #{id:x} (key {key}) swept before its deadline below capacity"), json!({"history": d, "evicted_at_seq": e.seq, "writer": w.short()}));
+                        rep.violate("C03", "cleanup/removed-unexpired", format!("value #{id:x} (key {key}): the deadline of the insert that wrote it ({}, ttl {} ns, begun at virtual time {}) did not apply: swept at virtual time {}", w.short(), w.ttl_ns, w.vcall, e.vnow), json!({"history": d, "evicted_at_seq": e.seq, "writer": w.short()}));
                     }
                 }
             }
